@@ -170,3 +170,62 @@ func VerifRtspLimits() {
 		symapi.Reach("long-line")
 	}
 }
+
+// verifChunkReader delivers its data in pieces: no Read crosses a cut position.
+type verifChunkReader struct {
+	data []byte
+	pos  int
+	cuts []int
+}
+
+func (c *verifChunkReader) Read(p []byte) (int, error) {
+	if c.pos >= len(c.data) {
+		return 0, io.EOF
+	}
+	end := len(c.data)
+	for _, k := range c.cuts {
+		if k > c.pos && k < end {
+			end = k
+		}
+	}
+	n := copy(p, c.data[c.pos:end])
+	c.pos += n
+	return n, nil
+}
+
+// VerifChunkedStream: a request with a body, a response with a body and a trailing marker,
+// concatenated and delivered in any chunking (CUTS symbolic cut positions anywhere in the
+// stream, e.g. TCP segment boundaries): the readers yield exactly those messages and stay
+// positioned at the next one.
+func VerifChunkedStream() {
+	CUTS := symapi.Param("CUTS", 1)
+	NB := symapi.Param("NB", 3)
+	u, _ := url.Parse("rtsp://h/a")
+	req := &Request{Method: MethodAnnounce, URL: u, Header: make(Header)}
+	req.Header.Set(FieldCSeq, "7")
+	req.Body = "v=0\r\n" + symapi.String("body", NB)
+	resp := &Response{StatusCode: 200, Header: make(Header)}
+	resp.Header.Set(FieldCSeq, "7")
+	resp.Body = symapi.String("rbody", NB) + "\r\nm=video"
+	var buf bytes.Buffer
+	req.Write(&buf)
+	resp.Write(&buf)
+	buf.WriteString("$\x00\x00\x01Z")
+	data := buf.Bytes()
+	cr := &verifChunkReader{data: data}
+	for i := 0; i < CUTS; i++ {
+		cr.cuts = append(cr.cuts, 1+symapi.Choose("cut", len(data)-1))
+	}
+	r := bufio.NewReaderSize(cr, 64)
+	got, err := ReadRequest(r)
+	symapi.Assert(err == nil && got != nil, "chunked-request-read")
+	symapi.Assert(got.Method == MethodAnnounce && got.Header.Get(FieldCSeq) == "7", "chunked-request-fields")
+	symapi.Assert(got.Body == req.Body, "chunked-request-body-complete")
+	gr, err := ReadResponse(r)
+	symapi.Assert(err == nil && gr != nil, "chunked-response-read")
+	symapi.Assert(gr.StatusCode == 200 && gr.Body == resp.Body, "chunked-response-body-complete")
+	rest := make([]byte, 5)
+	n, _ := io.ReadFull(r, rest)
+	symapi.Assert(n == 5 && rest[0] == '$' && rest[4] == 'Z', "positioned-at-next-message")
+	symapi.Reach("end")
+}
